@@ -88,7 +88,7 @@ func coOccur(fn *ssa.Function, anchor ssa.Instruction, isB func(ssa.Instruction)
 	}
 	// B before the anchor, with the anchor following B on all paths
 	var bs []ssa.Instruction
-	core.Instrs(fn, func(in ssa.Instruction) {
+	core.InstrsDeep(fn, func(in ssa.Instruction) {
 		if isB(in) {
 			bs = append(bs, in)
 		}
@@ -111,7 +111,7 @@ func C08(c *core.Ctx) {
 	if pii := c.Fn("R8.1", "fw/fw", "Thread", "processIncomingInterest"); pii != nil {
 		dup := atomExtractTrue("duplicate-nonce", 1, callIs(core.CalleeID{Pkg: "fw/table", Recv: "PitCsTable", Name: "InsertInterest"}))
 		var entry ssa.Value
-		core.Instrs(pii, func(in ssa.Instruction) {
+		core.InstrsDeep(pii, func(in ssa.Instruction) {
 			if e, ok := in.(*ssa.Extract); ok && e.Index == 0 && isCallTo(e.Tuple, core.CalleeID{Pkg: "fw/table", Recv: "PitCsTable", Name: "InsertInterest"}) {
 				entry = e
 			}
@@ -187,7 +187,7 @@ func C08(c *core.Ctx) {
 	if rm := c.Fn("R8.2", "fw/table", "PitCsTree", "RemoveInterest"); rm != nil {
 		// the shrink of node.pitEntries
 		var shrink ssa.Instruction
-		core.Instrs(rm, func(in ssa.Instruction) {
+		core.InstrsDeep(rm, func(in ssa.Instruction) {
 			if _, v, ok := storeToField(in, "pitCsTreeNode", "pitEntries"); ok {
 				if _, isSlice := core.Strip(v).(*ssa.Slice); isSlice {
 					shrink = in
@@ -271,7 +271,7 @@ func C08(c *core.Ctx) {
 		// the closure signals updateTimer
 		okSig := false
 		for _, a := range up.AnonFuncs {
-			core.Instrs(a, func(in ssa.Instruction) {
+			core.InstrsDeep(a, func(in ssa.Instruction) {
 				if s, ok := in.(*ssa.Send); ok {
 					if _, ok := core.FieldOf(s.Chan, "updateTimer"); ok {
 						okSig = true
@@ -317,7 +317,7 @@ func C08(c *core.Ctx) {
 			continue
 		}
 		n := 0
-		core.Instrs(fn, func(in ssa.Instruction) {
+		core.InstrsDeep(fn, func(in ssa.Instruction) {
 			if !pr.anchor(in) {
 				return
 			}
@@ -342,7 +342,7 @@ func C08(c *core.Ctx) {
 	if fn := c.Fn("R8.3", "fw/table", "DeadNonceList", "Insert"); fn != nil {
 		// lifetime: Now().Add(deadNonceListLifetime)
 		ok := false
-		core.Instrs(fn, func(in ssa.Instruction) {
+		core.InstrsDeep(fn, func(in ssa.Instruction) {
 			if cc, isC := core.IsCall(in, core.CalleeID{Pkg: "time", Recv: "Time", Name: "Add"}); isC {
 				r, a := core.CallArgs(cc)
 				if isTimeNow(r) && core.IsGlobal(a[0], "fw/table", "deadNonceListLifetime") {
@@ -392,7 +392,7 @@ func C08(c *core.Ctx) {
 		// R8.4b: inside the loop a node is unlinked only when the *cursor* itself is empty:
 		// every emptiness condition of the type must be asserted on the cursor on each iteration.
 		var cursor *ssa.Phi
-		core.Instrs(fn, func(in ssa.Instruction) {
+		core.InstrsDeep(fn, func(in ssa.Instruction) {
 			if phi, ok := in.(*ssa.Phi); ok {
 				for _, e := range phi.Edges {
 					if b, ok := core.FieldOf(e, "parent"); ok && core.Strip(b) == ssa.Value(phi) {
@@ -473,7 +473,7 @@ func C08(c *core.Ctx) {
 		}
 		// the loop unlinks from the parent and ascends via .parent
 		asc := false
-		core.Instrs(fn, func(in ssa.Instruction) {
+		core.InstrsDeep(fn, func(in ssa.Instruction) {
 			if fa, ok := in.(*ssa.FieldAddr); ok {
 				if _, f := core.FieldAddrName(fa); f == "parent" && loopHeader(in.Block()) != nil {
 					asc = true
@@ -508,7 +508,7 @@ func C08(c *core.Ctx) {
 				continue
 			}
 			c.Funcs[core.FuncName(fn)] = true
-			core.Instrs(fn, func(in ssa.Instruction) {
+			core.InstrsDeep(fn, func(in ssa.Instruction) {
 				_, v, okN := storeToField(in, "baseFibStrategyEntry", "nexthops")
 				_, v2, okS := storeToField(in, "baseFibStrategyEntry", "strategy")
 				empties := false
@@ -553,13 +553,13 @@ func C08(c *core.Ctx) {
 			}
 			var relIns, relPr core.RelSet
 			nI, nP := 0, 0
-			core.Instrs(ins, func(in ssa.Instruction) {
+			core.InstrsDeep(ins, func(in ssa.Instruction) {
 				if mu, ok := in.(*ssa.MapUpdate); ok && isVirt(mu.Map) {
 					nI++
 					relIns |= core.RelReach(ins, in, isLen, isM)
 				}
 			})
-			core.Instrs(pr, func(in ssa.Instruction) {
+			core.InstrsDeep(pr, func(in ssa.Instruction) {
 				if cl, ok := isBuiltinCall(in, "delete"); ok && isVirt(cl.Call.Args[0]) {
 					nP++
 					relPr |= core.RelReach(pr, in, isLen, isM)
@@ -584,7 +584,7 @@ func C08(c *core.Ctx) {
 			continue
 		}
 		n := 0
-		core.Instrs(fn, func(in ssa.Instruction) {
+		core.InstrsDeep(fn, func(in ssa.Instruction) {
 			_, _, ok := storeToField(in, "RibEntry", "routes")
 			if !ok {
 				return
